@@ -377,6 +377,8 @@ def _run_ob(obl: Ob, funcs: set, no_solver=False) -> dict:
         r["describe"] = _jsonable(obl.describe())
         return r
     r.update(run_crosshair(obl))
+    if getattr(obl, "stats", None):
+        r["stats"] = _jsonable(obl.stats)
     return r
 
 
